@@ -20,21 +20,37 @@ def kind_of(t):
         if t.length != 0 and len(t.attributes):
             return {"k": "attrs_counted", "n": len(t.attributes)}
         if t.length == 0:
-            return {"k": "none", "n": 0}
+            # no content; attributes without a preset value (the result-code of "result" 0x37) are on the wire, preset ones (0x38) not
+            from okdmr.dmrlib.motorola.lrrp import LRRP
+            wired = [a for a in t.attributes if (LRRP.ATTRIBUTE_TOKENS[a].value if isinstance(a, int) else None) is None]
+            return {"k": "attrs_none", "n": len(wired)} if wired else {"k": "none", "n": 0}
         return {"k": "counted", "n": 0}
     return {"INFO_TIME": {"k": "fixed", "n": 5}, "UINT8": {"k": "uint8", "n": 0}, "NO_VALUE": {"k": "none", "n": 0},
             "UFLOATVAR": {"k": "ufloat", "n": 0}, "SFLOATVAR": {"k": "sfloat", "n": 0}, "UINTVAR": {"k": "uintvar", "n": 0},
             "CIRCLE_2D": {"k": "circle2d", "n": 0}, "POINT_2D": {"k": "point2d", "n": 0}, "POINT_3D": {"k": "point3d", "n": 0}}.get(n, {"k": "x", "n": 0})
 
 
-def tables():
+def doc_cfg(d):
+    """the tokens a document id takes, decided by the document's NAME (a Request takes the query / request element tokens, a Report or
+    an Answer the answer / report ones) from the library's three token tables - not by the per-id list in LRRP.get_configuration,
+    which is what is being checked: an id that list forgets shows as a document the library cannot read"""
     from okdmr.dmrlib.motorola.lrrp import LRRP
+    from okdmr.dmrlib.motorola.mbxml import MBXMLTokenType
+    el = dict(LRRP.COMMON_ELEMENT_TOKENS)
+    if "Request" in d.name:
+        el.update(LRRP.QUERY_REQUEST_MESSAGES_ELEMENT_TOKENS)
+    elif "Report" in d.name or "Answer" in d.name:
+        el.update(LRRP.ANSWER_AND_REPORT_MESSAGES_ELEMENT_TOKENS)
+    return {MBXMLTokenType.ELEMENT_TOKEN: el, MBXMLTokenType.ATTRIBUTE_TOKEN: LRRP.ATTRIBUTE_TOKENS}
+
+
+def tables():
     from okdmr.dmrlib.motorola.mbxml import MBXMLDocumentIdentifier, MBXMLTokenType
     out = {}
     for d in MBXMLDocumentIdentifier:
         if not d.name.startswith("LRRP"):
             continue
-        cfg = LRRP.get_configuration(d)
+        cfg = doc_cfg(d)
         out[str(d.value[0])] = {"has_cdt": not d.value[1], "tokens": {str(k): kind_of(v) for k, v in cfg[MBXMLTokenType.ELEMENT_TOKEN].items()}}
     return out
 
@@ -63,6 +79,18 @@ def make_token(rng, cfg, tid):
             attrs.append(ac)
         t.attributes = attrs
         t.value = bytes(rng.getrandbits(8) for _ in range(rng.choice([0, 1, 3, 5])))
+    elif k == "attrs_none":
+        attrs = []
+        for a in t.attributes:
+            ac = copy(cfg[MBXMLTokenType.ATTRIBUTE_TOKEN][a])
+            if ac.value is None:
+                ac.token_id = a
+                ac.value = u32()
+                attrs.append(ac)
+            else:
+                attrs.append(a)
+        t.attributes = attrs
+        t.value = b""
     elif k == "none":
         t.value = b"" if t.token_type.name == "OPAQUE_I" else None
     elif k == "uint8":
@@ -72,13 +100,13 @@ def make_token(rng, cfg, tid):
     elif k == "ufloat":
         t.value = flt()
     elif k == "sfloat":
-        t.value = flt() * rng.choice([1, -1])
+        t.value = rng.choice([flt() * rng.choice([1, -1]), flt() * rng.choice([1, -1]), -0.0, 0.0, -(rng.randrange(1, 128) / 128)])
     elif k == "circle2d":
         t.value = (four(), four(), flt())
     elif k == "point2d":
         t.value = (four(), four())
     elif k == "point3d":
-        t.value = (four(), four(), flt() * rng.choice([1, -1]))
+        t.value = (four(), four(), rng.choice([flt() * rng.choice([1, -1]), -0.0, 0.0]))
     return t
 
 
@@ -133,7 +161,7 @@ def run(ctx):
     lrrp_ids = [d for d in MBXMLDocumentIdentifier if d.name.startswith("LRRP")]
 
     def build_doc(d, mode):
-        cfg = LRRP.get_configuration(d)
+        cfg = doc_cfg(d)
         doc = MBXMLDocument(document_id=d, elements_config=cfg[MBXMLTokenType.ELEMENT_TOKEN], attributes_config=cfg[MBXMLTokenType.ATTRIBUTE_TOKEN])
         tids = list(cfg[MBXMLTokenType.ELEMENT_TOKEN])
         exp = []
@@ -191,10 +219,22 @@ def run(ctx):
             samples.append(observe(buf, True, exps))
             if wire != buf:
                 samples.append(observe(wire, True, exps))
+    # ---- canonical signed floats written by hand (one-octet signed integer part: sign bit 0x40 + magnitude 0..63, one-septet
+    # fraction) - the library's writer has no part in these bytes, so a sign it would drop (minus zero: 0x40 0x00) is in the input
+    for d in lrrp_ids:
+        sf = [tid for tid, t in doc_cfg(d)[MBXMLTokenType.ELEMENT_TOKEN].items() if kind_of(t)["k"] == "sfloat"]
+        if not sf or not d.value[1]:
+            continue
+        for tid in sf:
+            for sign in (0, 0x40):
+                for m, f in ((0, 0), (0, 1), (0, 127), (1, 0), (63, 64), (rng.randrange(64), rng.randrange(128))):
+                    body = uv(tid) + bytes([sign | m, f])
+                    samples.append(observe(uv(d.value[0]) + uv(len(body)) + body, False))
     # ---- through the token lookup API
     for _ in range(60 if ctx.quick else 600):
-        d = rng.choice([x for x in lrrp_ids if x.value[1]])
-        cfg = LRRP.get_configuration(d)
+        # every LRRP document id, those with a constant data table included (the caller sets no table: the document has none of its own)
+        d = rng.choice(lrrp_ids)
+        cfg = doc_cfg(d)
         if 0x6C not in cfg[MBXMLTokenType.ELEMENT_TOKEN] and 0x31 not in cfg[MBXMLTokenType.ELEMENT_TOKEN]:
             continue        # a document id whose table only has the common tokens
         is_req = 0x6C not in cfg[MBXMLTokenType.ELEMENT_TOKEN]
@@ -208,6 +248,9 @@ def run(ctx):
                 doc.parts.append(LRRP.get_token(0x39, bytes(rng.getrandbits(8) for _ in range(3)), {"result-code": rng.choice([0, 0, 1, 5, 127, 128, 200, 70000, 2 ** 32 - 1])}, is_request=False))
             elif not is_req and rng.random() < 0.5:
                 doc.parts.append(LRRP.get_token("result", b"", {0x23: 0}, is_request=False))
+            elif not is_req:
+                # the content-less result with a result code of its own (0x37), found by name + attribute name
+                doc.parts.append(LRRP.get_token("result", b"", {"result-code": rng.choice([1, 5, 127, 128, 200, 70000, 2 ** 32 - 1])}, is_request=False))
             if not is_req and rng.random() < 0.5:
                 doc.parts.append(LRRP.get_token("speed-hor", rng.randrange(300) + rng.randrange(128) / 128, {}, is_request=False))
             for t in doc.parts:
